@@ -265,13 +265,14 @@ def jobs_c06(tier, seed):
 
 def jobs_c18(tier, seed):
     f = ["c18"]
-    return [
-        J("console::harness::cap_color_complete", crate="wincon", features=f, timeout_s=600, bound="cap_wincon_color: every colour (complete)"),
-        J("console::harness::write_all_runs_once_in_order", crate="wincon", features=f, timeout_s=3600, mem_gb=24,
-          bound="write_all over 'c ESC[3d;4em c c' (text, colour digits symbolic) split at any of the 12 positions into two calls; console script: <=6 calls, any accept sizes, one error (WouldBlock/Other) at any call"),
-        J("console::harness::write_reports_consumed_only_if_handed_over", crate="wincon", features=f, timeout_s=3600, mem_gb=24,
-          bound="write() over the same skeleton; any accept sizes, one error at any of the first 3 console calls"),
-    ]
+    jobs = [J("console::harness::cap_color_complete", crate="wincon", features=f, timeout_s=600, bound="cap_wincon_color: every colour (complete)")]
+    cuts = [2, 5] if tier == "quick" else [0, 1, 2, 5, 9]
+    for c in cuts:
+        jobs.append(J(f"console::harness::write_all_cut_{c}", crate="wincon", features=f, timeout_s=3600, mem_gb=24,
+                      bound=f"write_all over 'c ESC[3d;4em c' (text and colour digits symbolic) split after byte {c} into two calls; console script: <=5 calls, any accept sizes, one error (WouldBlock/Interrupted/Other) at any call"))
+    jobs.append(J("console::harness::write_reports_consumed_only_if_handed_over", crate="wincon", features=f, timeout_s=3600, mem_gb=24,
+                  bound="write() over the same skeleton; any accept sizes, one error at any of the first 3 console calls"))
+    return jobs
 
 
 C20_CONFIGS = [
@@ -480,7 +481,7 @@ REGISTRY = {
         "jobs": jobs_c18,
         "level": "model_checking",
         "functions": ["anstream/src/wincon.rs include!d from the working tree: write, write_all, write_fmt, cap_wincon_color, impl Write for WinconStream<S> (compiled, not driven)", "anstream::adapter::WinconBytes::extract_next (parser + styled-run capture)", "anstream/src/fmt.rs Adapter"],
-        "bounds": {"quick": "colour capping complete; write loop: skeleton input of 11 bytes with one SGR sequence (3 visible bytes, 2 colour digits symbolic), every 2-chunk split, console scripts of <=6 calls with arbitrary short counts and one injected error", "thorough": "same"},
+        "bounds": {"quick": "colour capping complete; write loop: skeleton input of 10 bytes with one SGR sequence (2 visible bytes, 2 colour digits symbolic), split after ESC and inside the parameter list, console scripts of <=5 calls with arbitrary short counts and one injected error incl. Interrupted", "thorough": "five split positions"},
         "outside": "other input shapes (the run extraction itself is C07); more than two chunks; Interrupted errors (retried by design, would need an unbounded loop)",
         "assumptions": ["stand-ins for crate::stream::{AsLockedWrite,IsTerminal} (harness/wincon/src/lib.rs) mirror the Windows bounds; crate::adapter and crate::fmt are the real code"],
     },
